@@ -83,7 +83,9 @@ func (r *Rand) randL(p, span int) Dec {
 	if r.Intn(4) == 0 {
 		e = r.between(-3, 3)
 	}
-	return finDec(r.bool(), c, e)
+	d := finDec(r.bool(), c, e)
+	d.Hp = r.Intn(8) == 0
+	return d
 }
 
 var specialDecs = []Dec{
